@@ -1276,6 +1276,8 @@ func leafBase(v ssa.Value, depth int) ssa.Value {
 	return v
 }
 
+var _ = (*ssa.Call)(nil)
+
 // bumpOf: v is base, base+1, or a phi of such values whose deciding facts mention the inputs only through base.
 func (an *An) bumpOf(v, base ssa.Value, depth int) bool {
 	v = ir.Resolve(v)
@@ -1296,6 +1298,37 @@ func (an *An) bumpOf(v, base ssa.Value, depth int) bool {
 			}
 		}
 		return len(x.Edges) > 0
+	case *ssa.Call:
+		// a helper that hands back one of its integer parameters, or that parameter plus one, on every return
+		cal := x.Call.StaticCallee()
+		if cal == nil || len(cal.Blocks) == 0 || cal.Signature.Results().Len() != 1 || !isIntT(x.Type()) {
+			return false
+		}
+		rets := ir.Returns(cal)
+		for _, r := range rets {
+			res := ir.Resolve(r.Results[0])
+			if b, ok := res.(*ssa.BinOp); ok {
+				k, isConst := ir.ConstInt(b.Y)
+				if !isConst || k != 1 || b.Op != token.ADD {
+					return false
+				}
+				res = ir.Resolve(b.X)
+			}
+			prm, ok := res.(*ssa.Parameter)
+			if !ok {
+				return false
+			}
+			found := false
+			for i, q := range cal.Params {
+				if q == prm && i < len(x.Call.Args) && ir.Resolve(x.Call.Args[i]) == base {
+					found = true
+				}
+			}
+			if !found {
+				return false
+			}
+		}
+		return len(rets) > 0
 	}
 	return false
 }
